@@ -23,6 +23,25 @@ theorem updaterOf_nodollar (k : String) (hk : k.startsWith "$" = false) : update
   have n6 : k ≠ "$pop" := ne_of_not_dollar hk (by decide +kernel)
   simp [updaterOf, n1, n2, n3, n4, n5, n6]
 
+theorem positionalOperators_dollar {k : String} (h : positionalOperators.contains k = true) :
+    k.startsWith "$" = true := by
+  simp only [positionalOperators, List.contains_cons, List.contains_nil, Bool.or_false,
+    Bool.or_eq_true, beq_iff_eq] at h
+  rcases h with h | h | h | h | h | h | h | h | h | h | h | h <;> subst h <;> decide +kernel
+
+/-- a replacement document has no operator, hence no positional path -/
+theorem replacement_not_positional : ∀ (doc : Fields), isReplacement doc = true →
+    positionalUpdate doc = false
+  | [], _ => rfl
+  | (k, v) :: r, h => by
+    simp only [isReplacement, List.all_cons, Bool.and_eq_true, Bool.not_eq_true'] at h
+    have hr := replacement_not_positional r (by simpa [isReplacement] using h.2)
+    simp only [positionalUpdate, List.any_cons, Bool.or_eq_false_iff] at hr ⊢
+    refine ⟨?_, hr⟩
+    cases hc : positionalOperators.contains k with
+    | false => rfl
+    | true => rw [positionalOperators_dollar hc] at h; cases h.1
+
 /-- a non-empty replacement document goes to `replaceWhole` -/
 theorem applyUpdate_replacement (spec now : Val) (wi : Bool) (doc : Fields) (d : Val)
     (hne : doc ≠ []) (hr : isReplacement doc = true) :
@@ -40,8 +59,10 @@ theorem applyUpdate_replacement (spec now : Val) (wi : Bool) (doc : Fields) (d :
     have n5 : k ≠ "$pull" := ne_of_not_dollar hk (by decide +kernel)
     have n6 : k ≠ "$pullAll" := ne_of_not_dollar hk (by decide +kernel)
     have n7 : k ≠ "$push" := ne_of_not_dollar hk (by decide +kernel)
-    simp only [applyUpdate, applyOps, updaterOf_nodollar k hk, n1, n2, n3, n4, n5, n6, n7, if_false,
-      if_true]
+    have hpos := replacement_not_positional ((k, v) :: r)
+      (by simp only [isReplacement, List.all_cons, Bool.and_eq_true, Bool.not_eq_true']; exact hr)
+    simp only [applyUpdate, hpos, Bool.false_eq_true, applyOps, updaterOf_nodollar k hk, n1, n2, n3,
+      n4, n5, n6, n7, if_false, if_true]
 
 theorem foldl_dset_absent (k : String) : ∀ (doc base : Fields), k ∉ dkeys doc →
     dget k (doc.foldl (fun acc kv => dset kv.1 kv.2 acc) base) = dget k base
